@@ -162,11 +162,13 @@ type Run struct {
 	armed    map[string]bool
 	delays   map[string]time.Duration
 	sleepers atomic.Int32
-	maxHold  time.Duration
-	start    time.Time
-	roleLogs map[string][]string
-	cleanups []func()
-	afters   []func()
+	// RestBarrier, if set, is called by the scheduler whenever the run has come to rest
+	RestBarrier func()
+	maxHold     time.Duration
+	start       time.Time
+	roleLogs    map[string][]string
+	cleanups    []func()
+	afters      []func()
 	// Scrub removes run-specific random strings (e.g. the muxer's URI prefix) from traces and messages.
 	Scrub func(string) string
 }
@@ -495,6 +497,11 @@ func syncWait() {
 	for i := 0; r.sleepers.Load() > 0 && i < 100000; i++ {
 		time.Sleep(time.Nanosecond)
 		synctest.Wait()
+	}
+	// what other goroutines of the harness wrote under a world's mutex before they came to rest is read by the
+	// scheduler without it: taking and releasing that mutex here orders the two for the race detector as well
+	if b := r.RestBarrier; b != nil {
+		b()
 	}
 }
 
